@@ -71,6 +71,7 @@ class Api:
     def __init__(self):
         self.calls, self.faults = [], {}
         self.latency, self.acked, self.on_first_call = 0.0, set(), None
+        self.lat = {}        # per-inverter acknowledge latency (concurrent requests), else self.latency
 
     async def set_power(self, component_id, power):
         from frequenz.client.microgrid import ApiClientError, OperationOutOfRange
@@ -85,8 +86,9 @@ class Api:
             raise ApiClientError(server_url="fake", operation="set_power", description="scripted", retryable=False)
         if o == 4:
             await asyncio.Event().wait()       # never replies: the manager's timeout cancels the task
-        if self.latency:
-            await asyncio.sleep(self.latency)  # the acknowledge takes a while; failures above are reported at once
+        lat = self.lat.get(component_id, self.latency)
+        if lat:
+            await asyncio.sleep(lat)           # the acknowledge takes a while; failures above are reported at once
         self.acked.add(component_id)
 
 
@@ -240,7 +242,7 @@ def run_sequence(case):
             m, api, log = loop.run_until_complete(make_manager_startup(case, I))
         else:
             m, api, log = make_manager(case, I)
-        pool = set(m._bat_invs_map)
+        m._api_power_request_timeout = timedelta(seconds=float(D.fr(case.get("timeout", 5))))
 
         async def deliver(st):
             # every sample is sent on the stream of the component it belongs to
@@ -260,51 +262,68 @@ def run_sequence(case):
                 for cid, d in st["invs"]:
                     m._inverter_caches[cid].value = inv_obj(cid, d, st["ts"] if "ts" not in d else d["ts"])
                 continue
+            subs = [st["a"], st["b"]] if st["t"] == "req2" else [st]
             del log[:]
             api.calls.clear()
-            api.faults = {int(i): int(c) for i, c in st.get("faults", [])}
-            api.latency = float(D.fr(st.get("latency", 0)))
-            api.acked = set()
+            api.faults = {int(i): int(c) for sub in subs for i, c in sub.get("faults", [])}
+            api.latency, api.lat, api.acked = 0.0, {}, set()
+            reqs = []
+            for sub in subs:
+                gis = sub.get("sets", list(range(len(case["groups"]))))
+                ids = {b for gi in gis for b in case["groups"][gi]["bats"]}
+                for gi in gis:
+                    for i in case["groups"][gi]["invs"]:
+                        api.lat[i] = float(D.fr(sub.get("latency", 0)))
+                reqs.append(I.Request(power=I.Power.from_watts(X(D.fr(sub["power"]))), component_ids=ids, adjust_power=bool(sub["adjust"])))
             n0 = len(m._results_sender.msgs)
-            req = I.Request(power=I.Power.from_watts(X(D.fr(st["power"]))), component_ids=pool, adjust_power=bool(st["adjust"]))
-            if "mutate_to" in st:                # the caller re-uses the Request object for its next request
-                def _mutate(req=req, p2=st["mutate_to"]):
+            api.on_first_call = None
+            if "mutate_to" in subs[0]:           # the caller re-uses the Request object for its next request
+                def _mutate(req=reqs[0], p2=subs[0]["mutate_to"]):
                     req.power = I.Power.from_watts(X(D.fr(p2)))
                 api.on_first_call = _mutate
-            else:
-                api.on_first_call = None
-            o = {"kind": None, "calls": None, "succ": None, "excess": None, "failed_power": None, "order": [], "n_results": 0}
+
+            async def submit():
+                # one request, or two requests for disjoint battery sets in flight together on the one manager
+                await asyncio.gather(*[m.distribute_power(r) for r in reqs])
+            raised = None
             try:
-                loop.run_until_complete(m.distribute_power(req))
+                loop.run_until_complete(submit())
             except Exception as exc:  # noqa: BLE001 - part of the observation
-                o["kind"] = "raise:" + type(exc).__name__
-                out.append(o)
-                continue
+                raised = "raise:" + type(exc).__name__
             msgs = m._results_sender.msgs[n0:]
-            loop.run_until_complete(asyncio.sleep(1.0))     # let whatever is still in flight reach the hardware
-            o["acked"] = sorted(api.acked)
-            o["n_results"] = len(msgs)
-            o["calls"] = sorted([int(c), D.js(p)] for c, p in api.calls)
-            # order in which the manager visited its battery sets: first battery read of each set
-            seen = []
-            for cid in log:
-                for gi, g in enumerate(case["groups"]):
-                    if cid in g["bats"] and gi not in seen:
-                        seen.append(gi)
-            o["order"] = seen
-            if len(msgs) == 1:
-                r = msgs[0]
-                o["kind"] = type(r).__name__
-                if isinstance(r, (I.R.Success, I.R.PartialFailure)):
-                    o["succ"] = D.js(r.succeeded_power.as_watts())
-                    o["excess"] = D.js(r.excess_power.as_watts())
-                    o["succ_components"] = sorted(r.succeeded_components)
-                if isinstance(r, I.R.PartialFailure):
-                    o["failed_power"] = D.js(r.failed_power.as_watts())
-                    o["failed_components"] = sorted(r.failed_components)
-            else:
-                o["kind"] = f"results:{len(msgs)}"
-            out.append(o)
+            loop.run_until_complete(asyncio.sleep(6.0))     # let whatever is still in flight reach the hardware
+            for sub, req in zip(subs, reqs):
+                gis = sub.get("sets", list(range(len(case["groups"]))))
+                own_invs = {i for gi in gis for i in case["groups"][gi]["invs"]}
+                own_bats = {b for gi in gis for b in case["groups"][gi]["bats"]}
+                o = {"kind": raised, "calls": None, "succ": None, "excess": None, "failed_power": None, "order": [], "n_results": 0}
+                if raised is not None:
+                    out.append(o)
+                    continue
+                mine = [r for r in msgs if getattr(r, "request", None) is req]
+                o["acked"] = sorted(api.acked & own_invs)
+                o["n_results"] = len(mine)
+                o["calls"] = sorted([int(c), D.js(p)] for c, p in api.calls if c in own_invs)
+                # order in which the manager visited its battery sets: first battery read of each set
+                seen = []
+                for cid in log:
+                    for gi, g in enumerate(case["groups"]):
+                        if cid in g["bats"] and cid in own_bats and gi not in seen:
+                            seen.append(gi)
+                o["order"] = seen
+                if len(mine) == 1:
+                    r = mine[0]
+                    o["kind"] = type(r).__name__
+                    if isinstance(r, (I.R.Success, I.R.PartialFailure)):
+                        o["succ"] = D.js(r.succeeded_power.as_watts())
+                        o["excess"] = D.js(r.excess_power.as_watts())
+                        o["succ_components"] = sorted(r.succeeded_components)
+                    if isinstance(r, I.R.PartialFailure):
+                        o["failed_power"] = D.js(r.failed_power.as_watts())
+                        o["failed_components"] = sorted(r.failed_components)
+                else:
+                    o["kind"] = f"results:{len(mine)}"
+                out.append(o)
         if startup:
             loop.run_until_complete(m.stop())
     finally:
@@ -324,9 +343,24 @@ def latest_views(case):
                 bats[cid] = d
             for cid, d in st["invs"]:
                 invs[cid] = d
+        elif st["t"] == "req2":
+            views.append((dict(bats), dict(invs), {**st["a"], "t": "req", "concurrent": "first"}))
+            views.append((dict(bats), dict(invs), {**st["b"], "t": "req", "concurrent": "second"}))
         else:
             views.append((dict(bats), dict(invs), st))
     return views
+
+
+def eff_faults(case, st):
+    """per-inverter outcome of set_power as the manager must see it: the scripted fault, or a time-out when the
+    acknowledge takes longer than api_power_request_timeout"""
+    f = {int(i): int(c) for i, c in st.get("faults", [])}
+    if D.fr(st.get("latency", 0)) >= D.fr(case.get("timeout", 5)):
+        gis = st.get("sets", list(range(len(case["groups"]))))
+        for gi in gis:
+            for i in case["groups"][gi]["invs"]:
+                f.setdefault(i, 4)
+    return f
 
 
 def dist_case(case, view, order=None):
@@ -334,6 +368,8 @@ def dist_case(case, view, order=None):
     bats, invs, st = view
     groups, idx = [], []
     for gi, g in enumerate(case["groups"]):
+        if "sets" in st and gi not in st["sets"]:
+            continue
         if all(b in bats for b in g["bats"]) and all(i in invs for i in g["invs"]):
             groups.append({"bats": [{**bats[b], "id": b} for b in g["bats"]], "invs": [{**invs[i], "id": i} for i in g["invs"]]})
             idx.append(gi)
@@ -374,7 +410,7 @@ def judge(case, obs):
             if o["calls"]:
                 out.append(("C01_rejected_but_commanded", k, f"request {k}: result {o['kind']} but set_power calls {o['calls']}"))
             continue
-        faults = {int(i): int(c) for i, c in view[2].get("faults", [])}
+        faults = eff_faults(case, view[2])
         failed_p = D.fr(o["failed_power"]) if o["failed_power"] is not None else F(0)
         want = sorted(i["id"] for g in dc["groups"] for i in g["invs"])
         got = [c for c, _ in o["calls"]]
@@ -383,8 +419,9 @@ def judge(case, obs):
             out.append(("C02_calls", k, f"request {k}: set_power called for inverters {got}, the request covers {want}"))
             continue
         # reported-as-set under API faults: succeeded = accepted set-points, failed = rejected set-points
-        # accepted = acknowledged by the (fake) hardware, also when the acknowledge arrived after the Result was sent
-        acked = set(o.get("acked", [c for c, _ in o["calls"] if faults.get(c, 0) == 0]))
+        # accepted = commanded, not rejected, and acknowledged before api_power_request_timeout (also when the
+        # acknowledge arrives after the Result was sent)
+        acked = {c for c, _ in o["calls"] if faults.get(c, 0) == 0}
         acc = sum(D.fr(v) for c, v in o["calls"] if c in acked)
         rej = sum(D.fr(v) for c, v in o["calls"] if c not in acked)
         req_p = D.fr(view[2]["power"])
@@ -463,7 +500,7 @@ def case_term(case, obs):
         else:
             exp = f"({KIND[o['kind']]}%nat, None)"
         items.append(f"({D.c_groups(dc)}, {D.cQ(view[2]['power'])}, {'true' if view[2]['adjust'] else 'false'}, "
-                     f"{c_map(case)}, {c_outf(view[2].get('faults', []))}, {exp})")
+                     f"{c_map(case)}, {c_outf(sorted(eff_faults(case, view[2]).items()))}, {exp})")
     return "[" + "; ".join(items) + "]"
 
 
@@ -529,9 +566,24 @@ def gen_case(rng, startup=False):
                 chosen = [i for i in all_invs if rng.random() < 0.5] or [rng.choice(all_invs)]
                 req["faults"] = [[i, 1 if kind == "range_only" else rng.choice([1, 2, 4])] for i in chosen]
         if rng.random() < 0.5:
-            req["latency"] = [1, 20]          # 50 ms until a set_power call is acknowledged
+            # time until a set_power call is acknowledged: below and above api_power_request_timeout
+            req["latency"] = D.js(rng.choice([F(1, 20), F(1, 20), F(1, 5), F(2, 5), F(1), F(3)]))
         if rng.random() < 0.15:
             req["mutate_to"] = D.js(-p if p != 0 else F(100))    # the caller mutates the Request while the API round trip is in flight
+        if len(topo) >= 2 and rng.random() < 0.25:
+            # two requests for disjoint battery sets in flight together; the second starts during the first one's wait
+            # and is acknowledged first
+            k = rng.randrange(1, len(topo))
+            sa, sb = list(range(k)), list(range(k, len(topo)))
+            sub = lambda gis: {"groups": [dc["groups"][gi] for gi in gis], "power": 1, "exp": 1}
+            pa, pb = rng.choice(_requests(rng, sub(sa))), rng.choice(_requests(rng, sub(sb)))
+            a = {"power": D.js(pa), "adjust": True, "sets": sa, "latency": D.js(rng.choice([F(1, 5), F(2, 5), F(1)]))}
+            b = {"power": D.js(pb), "adjust": rng.random() < 0.7, "sets": sb, "latency": [1, 20]}
+            if rng.random() < 0.7:
+                a["faults"] = [[rng.choice([i for gi in sa for i in topo[gi]["invs"]]), rng.choice([1, 1, 2])]]
+            if rng.random() < 0.3:
+                b["faults"] = [[rng.choice([i for gi in sb for i in topo[gi]["invs"]]), rng.choice([1, 2])]]
+            req = {"t": "req2", "a": a, "b": b}
         steps.append(req)
         # next update: which side gets a fresh sample
         nb, ni = _comp_data(rng, topo)
@@ -555,7 +607,7 @@ def gen_case(rng, startup=False):
         steps.append({"t": "data", "ts": ts, "bats": ub, "invs": ui})
         cur_b.update(dict(map(tuple, ub)))
         cur_i.update(dict(map(tuple, ui)))
-    case = {"groups": topo, "steps": steps}
+    case = {"groups": topo, "steps": steps, "timeout": D.js(rng.choice([F(1, 4), F(1, 2), F(3, 2), F(2), F(5), F(5)]))}
     if startup:
         # every component needs a stream sample before it is used; requests before the data are fine (Error)
         case["startup"] = True
@@ -605,6 +657,18 @@ def boundary_cases():
                                            # the caller re-uses (mutates) the Request object during the round trip
                                            {"t": "req", "power": 900, "adjust": True, "latency": [1, 20], "mutate_to": -300},
                                            {"t": "req", "power": 700, "adjust": True, "faults": [[18, 1]], "mutate_to": 100}]})
+    # api_power_request_timeout that is not a whole number of seconds, acknowledges just below / above it
+    for to, lats in ((F(1, 2), (F(1, 50), F(2, 5), F(1))), (F(1, 4), (F(1, 50), F(1, 5), F(2, 5))), (F(3, 2), (F(1), F(3)))):
+        out.append({"groups": topo2, "timeout": D.js(to), "steps": [d2] + [
+            {"t": "req", "power": pw, "adjust": True, "latency": D.js(l)} for l in lats for pw in (1500, -700)]})
+    # two requests for disjoint battery sets in flight together; a set_power failure in the first, which finishes last
+    for flt in ([[8, 1]], [[8, 2]], []):
+        out.append({"groups": topo2, "steps": [d2, {"t": "req2",
+                    "a": {"power": 500, "adjust": True, "sets": [0], "latency": [2, 5], "faults": flt},
+                    "b": {"power": 900, "adjust": True, "sets": [1], "latency": [1, 20]}},
+                   {"t": "req2",
+                    "a": {"power": -900, "adjust": True, "sets": [1], "latency": [1, 5], "faults": [[19, 1]]},
+                    "b": {"power": -300, "adjust": False, "sets": [0], "latency": [1, 50]}}]})
     return out
 
 
@@ -618,7 +682,7 @@ def shrink_case(case):
     for k in range(len(steps) - 1, -1, -1):
         if len(steps) > 1:
             yield {**case, "steps": steps[:k] + steps[k + 1:]}
-    if len(case["groups"]) > 1:
+    if len(case["groups"]) > 1 and not any(st["t"] == "req2" for st in steps):
         for gi, g in enumerate(case["groups"]):
             drop = set(g["bats"]) | set(g["invs"])
             st2 = []
@@ -680,7 +744,7 @@ class ManagerStream(Stream):
         return json.dumps(case, sort_keys=True)
 
     def labels(self, case, obs):
-        out = [f"sets={len(case['groups'])}", f"requests={len(obs['reqs'])}"]
+        out = [f"sets={len(case['groups'])}", f"requests={len(obs['reqs'])}", f"api_timeout={float(D.fr(case.get('timeout', 5)))}s"]
         if case.get("startup"):
             out.append("construction:real_init_and_create_channels")
             invs = [i for g in case["groups"] for i in g["invs"]]
@@ -707,6 +771,12 @@ class ManagerStream(Stream):
             p = D.fr(st["power"])
             out.append(f"result:{o['kind']}")
             out.append("mode:adjust" if st["adjust"] else "mode:exact")
+            if "concurrent" in st:
+                out.append("concurrent:two_requests_disjoint_sets")
+                if st["concurrent"] == "first" and st.get("faults"):
+                    out.append("concurrent:failure_in_the_request_that_finishes_last")
+            if st.get("latency") and D.fr(st["latency"]) >= D.fr(case.get("timeout", 5)):
+                out.append("api:acknowledge_after_timeout")
             if st.get("latency"):
                 out.append("api:acknowledge_latency" + ("+early_failure" if any(c in (1, 2) for _, c in st.get("faults", [])) else ""))
             if "mutate_to" in st:
